@@ -1,6 +1,12 @@
 /-
   Props/C15.lean — PROPERTY C15: move classification predicates tell the truth.  Statements only.
 -/
+import ChessVerif.Lemmas.GivesCheckSpec
+import ChessVerif.Lemmas.LegalFacts
+import ChessVerif.Lemmas.GivesCheckEpSpec
+import ChessVerif.Lemmas.WfHyp
+import ChessVerif.Lemmas.LegalShape
+import ChessVerif.Lemmas.OKDefs
 import ChessVerif.Model.Text
 import ChessVerif.Spec.Rules
 import ChessVerif.Lemmas.LegalShape
@@ -99,9 +105,134 @@ theorem C15_capture_quiet_full (p : Position) (m : Spec.SMove) (hwf : Spec.wf (a
     refine ⟨hcapture, ?_⟩
     rw [C15_quiet p _ c4, hcapture, c3]
 
-/-- the full statement (kept visible): on every legal move the three answers agree with what playing the move does.
-    The check-giving part needs the attack-geometry bridge (DESIGN §6 C15) and is decided by the correspondence with
-    the rules spec on every legal move of every sampled position. -/
+/-- C15 (GIVES CHECK, ordinary moves): on every well-formed position and for every legal move that is neither castling nor an
+    en-passant capture (captures and promotions included, direct and discovered checks alike), `move_gives_check` answers exactly
+    whether the opponent is in check on the board the rules produce.  The three side conditions `givesCheckHypB` (promotion to N/B/R/Q,
+    the enemy king is not the target, the kings are not adjacent afterwards) are decidable and evaluated for every legal move of
+    every position of every run.  Proof (Lemmas/GivesCheck.lean): the direct test through the arriving piece's attack set equals
+    "its square is in the king's attack set of that kind" (attack symmetry); the discovered test with the OLD slider sets on the NEW
+    occupancy sees exactly the unmoved sliders (a square seen through the lifted mover was seen before, and the enemy king is not
+    attacked before the move); pawn and knight tests cannot fire for unmoved pieces for the same reason. -/
+theorem C15_gives_check_ordinary (p : Position) (hwf : Spec.wf (Chess.absPos p) = true) (m : Spec.SMove)
+    (hm : m ∈ Spec.legalMoves (Chess.absPos p))
+    (hnc : Spec.isCastle p.board m = false) (hnep : Spec.isEpCapture (Chess.absPos p) m = false)
+    (hside : givesCheckHypB (Chess.absPos p) m = true) :
+    moveGivesCheck p (codeOf (Chess.absPos p) m) = Spec.inCheck (Spec.apply (Chess.absPos p) m).board (1 - p.side) := by
+  have ok := stepOK_of_legal _ hwf m hm
+  obtain ⟨hbo, hs, hk, _, _⟩ := wf_board_hyps _ hwf
+  have hs' : p.side ≤ 1 := hs
+  obtain ⟨kq, hkq, _⟩ := hk (1 - p.side) (by omega)
+  have hkq' : KingAt p.board (1 - p.side) kq := hkq
+  have hfk : Spec.findKing (Chess.absPos p).board (1 - (Chess.absPos p).side) = kq := findKing_eq p.board (1 - p.side) kq hkq'
+  unfold givesCheckHypB at hside
+  rw [hfk] at hside
+  simp only [Bool.and_eq_true, decide_eq_true_eq, Bool.not_eq_true'] at hside
+  obtain ⟨⟨⟨p5, p1⟩, hdst⟩, hnear⟩ := hside
+  -- the opponent is not in check now (it is not their move)
+  have hsafe : Spec.attacked p.board kq p.side = false := by
+    have hw := hwf
+    unfold Spec.wf at hw
+    simp only [Bool.and_eq_true, Bool.not_eq_true'] at hw
+    obtain ⟨⟨⟨⟨_, hnic⟩, _⟩, _⟩, _⟩ := hw
+    unfold Spec.inCheck at hnic
+    have e : Spec.findKing (Chess.absPos p).board (1 - (Chess.absPos p).side) = kq := hfk
+    rw [e] at hnic
+    have e2 : 1 - (1 - (Chess.absPos p).side) = p.side := by show 1 - (1 - p.side) = p.side; omega
+    rw [e2] at hnic
+    exact hnic
+  exact gives_check_spec p m ok hbo hnc hnep ⟨p5, p1⟩ kq hkq' hdst hsafe hnear
+
+/-- **gives-check, unconditional for ordinary moves**: on every well-formed position and for every rules-legal move that is neither
+    castling nor an en-passant capture (promotions included), `move_gives_check` is exactly "the opponent is in check after the move".
+    The side conditions of `C15_gives_check_ordinary` are theorems (Lemmas/LegalFacts.lean): the rules promote to N/B/R/Q only
+    (`promo_of_pseudo`); a pseudo-legal move onto an enemy piece attacks its square, so with the opponent not in check no move lands
+    on the enemy king (`attacks_of_pseudo`, `dst_ne_king`: pawn captures, leaper offsets closed under negation, a slider seen back
+    along the empty squares it crossed); and the kings are apart afterwards (`kings_apart_after`: a non-king move leaves them where
+    well-formedness put them, a king move is legal only onto a square the other king does not attack, and adjacency is symmetric). -/
+theorem C15_gives_check (p : Position) (hwf : Spec.wf (Chess.absPos p) = true) (m : Spec.SMove)
+    (hm : m ∈ Spec.legalMoves (Chess.absPos p))
+    (hnc : Spec.isCastle p.board m = false) (hnep : Spec.isEpCapture (Chess.absPos p) m = false) :
+    moveGivesCheck p (codeOf (Chess.absPos p) m) = Spec.inCheck (Spec.apply (Chess.absPos p) m).board (1 - p.side) := by
+  apply C15_gives_check_ordinary p hwf m hm hnc hnep
+  have hps : m ∈ Spec.pseudoMoves (Chess.absPos p) := by unfold Spec.legalMoves at hm; exact (List.mem_filter.1 hm).1
+  obtain ⟨_, hs, hk, _, _⟩ := wf_board_hyps _ hwf
+  have hs' : p.side ≤ 1 := hs
+  obtain ⟨kq, hkq, _⟩ := hk (1 - p.side) (by omega)
+  have hkq' : KingAt (Chess.absPos p).board (1 - (Chess.absPos p).side) kq := hkq
+  have hfk : Spec.findKing (Chess.absPos p).board (1 - (Chess.absPos p).side) = kq := findKing_eq p.board (1 - p.side) kq hkq
+  have hsafe : Spec.attacked (Chess.absPos p).board kq (Chess.absPos p).side = false := by
+    have hw := hwf
+    unfold Spec.wf at hw
+    simp only [Bool.and_eq_true, Bool.not_eq_true'] at hw
+    obtain ⟨⟨⟨⟨_, hnic⟩, _⟩, _⟩, _⟩ := hw
+    unfold Spec.inCheck at hnic
+    rw [hfk] at hnic
+    have e2 : 1 - (1 - (Chess.absPos p).side) = (Chess.absPos p).side := by show 1 - (1 - p.side) = p.side; omega
+    rw [e2] at hnic
+    exact hnic
+  have hdst := dst_ne_king _ hwf m hps kq hkq' hsafe
+  have hpromo := promo_of_pseudo _ m hps
+  have hnear := kings_apart_after _ hwf m hm hnc hnep kq hkq' hdst
+  unfold givesCheckHypB
+  rw [hfk, hnear]
+  simp only [Bool.and_eq_true, decide_eq_true_eq, Bool.not_false, and_true]
+  exact ⟨⟨hpromo.1, hpromo.2⟩, hdst⟩
+
+/-- the hypotheses of `C15_gives_check` are satisfiable with a move that gives check and one that does not -/
+def c15Board : List Nat :=   -- white Ke1 Ra1 Pb7, black Kh8 Na8: b7xa8=Q gives check along the eighth rank, b7-b8=N does not
+  [4, 0, 0, 0, 6, 0, 0, 0] ++ List.replicate 40 0 ++ [0, 1, 0, 0, 0, 0, 0, 0] ++ [8, 0, 0, 0, 0, 0, 0, 12]
+def c15Pos : Position := { side := 0, halfmove := 0, ply := 1, board := c15Board, castling := 0, ep := 64, hash := {}, history := [] }
+set_option maxRecDepth 100000 in
+example : Spec.wf (Chess.absPos c15Pos) = true ∧ (⟨49, 56, 5⟩ : Spec.SMove) ∈ Spec.legalMoves (Chess.absPos c15Pos) ∧
+    (⟨49, 57, 2⟩ : Spec.SMove) ∈ Spec.legalMoves (Chess.absPos c15Pos) ∧
+    moveGivesCheck c15Pos (codeOf (Chess.absPos c15Pos) ⟨49, 56, 5⟩) = true ∧
+    moveGivesCheck c15Pos (codeOf (Chess.absPos c15Pos) ⟨49, 57, 2⟩) = false := by decide +kernel
+
+/-- **gives-check for every legal move except castling**: ordinary moves, promotions and en-passant captures.  For an en-passant
+    capture (Lemmas/GivesCheckEp.lean, GivesCheckEpSpec.lean) three squares change; the engine's extra discovered-check test on the
+    occupancy without the captured pawn is the slider test on the real occupancy after the move, and the ordinary test on the
+    occupancy that still contains the captured pawn is contained in it because removing a blocker only lengthens rays
+    (`bishopAttack_anti`, `rookAttack_anti`, through C11). -/
+theorem C15_gives_check_noncastle (p : Position) (hwf : Spec.wf (Chess.absPos p) = true) (m : Spec.SMove)
+    (hm : m ∈ Spec.legalMoves (Chess.absPos p)) (hnc : Spec.isCastle p.board m = false) :
+    moveGivesCheck p (codeOf (Chess.absPos p) m) = Spec.inCheck (Spec.apply (Chess.absPos p) m).board (1 - p.side) := by
+  by_cases hnep : Spec.isEpCapture (Chess.absPos p) m = false
+  · exact C15_gives_check p hwf m hm hnc hnep
+  · have hep : Spec.isEpCapture (Chess.absPos p) m = true := by simpa using hnep
+    have ok := stepOK_of_legal _ hwf m hm
+    obtain ⟨hbo, hs, hk, _, _⟩ := wf_board_hyps _ hwf
+    have hs' : p.side ≤ 1 := hs
+    obtain ⟨kq, hkq, hnear0⟩ := hk (1 - p.side) (by omega)
+    have hkq' : KingAt p.board (1 - p.side) kq := hkq
+    have hopp : 1 - (1 - p.side) = p.side := by omega
+    have hnear0' : kingNear p.board kq p.side = false := by
+      have : kingNear (Chess.absPos p).board kq (1 - (1 - p.side)) = false := hnear0
+      rw [hopp] at this; exact this
+    have hfk : Spec.findKing (Chess.absPos p).board (1 - (Chess.absPos p).side) = kq := findKing_eq p.board (1 - p.side) kq hkq
+    have hsafe : Spec.attacked p.board kq p.side = false := by
+      have hw := hwf
+      unfold Spec.wf at hw
+      simp only [Bool.and_eq_true, Bool.not_eq_true'] at hw
+      obtain ⟨⟨⟨⟨_, hnic⟩, _⟩, _⟩, _⟩ := hw
+      unfold Spec.inCheck at hnic
+      rw [hfk] at hnic
+      have e2 : 1 - (1 - (Chess.absPos p).side) = p.side := by show 1 - (1 - p.side) = p.side; omega
+      rw [e2] at hnic
+      exact hnic
+    exact gives_check_ep_spec p m ok hbo hep kq hkq' hsafe hnear0'
+
+/-- non-vacuity for the en-passant case: white Kh4, Ra5; black Kh5?? no — a discovered check through the captured pawn:
+    white Ke1, Ra5, Pe5; black Kh5, Pd5 (just played d7-d5): e5xd6 e.p. clears the fifth rank twice over and the rook checks -/
+def c15EpBoard : List Nat :=
+  [0, 0, 0, 0, 6, 0, 0, 0] ++ List.replicate 24 0 ++ [4, 0, 0, 7, 1, 0, 0, 12] ++ List.replicate 24 0
+def c15EpPos : Position := { side := 0, halfmove := 0, ply := 1, board := c15EpBoard, castling := 0, ep := 43, hash := {}, history := [] }
+set_option maxRecDepth 100000 in
+example : Spec.wf (Chess.absPos c15EpPos) = true ∧ (⟨36, 43, 0⟩ : Spec.SMove) ∈ Spec.legalMoves (Chess.absPos c15EpPos) ∧
+    Spec.isEpCapture (Chess.absPos c15EpPos) ⟨36, 43, 0⟩ = true ∧
+    moveGivesCheck c15EpPos (codeOf (Chess.absPos c15EpPos) ⟨36, 43, 0⟩) = true := by decide +kernel
+
+/-- the remaining part of the full statement (castling), kept visible and decided by the correspondence with
+    the rules spec on every legal move of every sampled position -/
 def C15_Statement : Prop :=
   ∀ (T : ZTable) (p : Position) (m : Nat), m ∈ genMoves p →
     moveGivesCheck p m = isInCheck (doMove T p m).1 (doMove T p m).1.side
